@@ -310,7 +310,9 @@ def join(toks, rng=None):
                 pass
             out.append(tok)
         return "".join(out)
-    seps = [" ", "  ", "\t", "\n", "\r\n", " \n ", " ", " ", " ", " ", "　", " /* c */ ", " // c\n", "\n// c\n", " /**/ ", " /* * / */ "]
+    seps = [" ", "  ", "\t", "\n", "\r\n", " \n ", " ", " ", " ", " ", "　", " /* c */ ", " // c\n", "\n// c\n", " /**/ ", " /* * / */ ",
+            # comment bodies made of the comment delimiters' own characters
+            " /*/ c */ ", " /*// c */ ", " /*/*/ ", " /***/ ", " /** c **/ ", " /* /* c */ ", " /* \" */ ", " /*\n*/ ", " // */ c\n", " // /* c\n", " //\n", " ///\n", " /* // */ "]
     out = []
     for k, tok in enumerate(toks):
         if k:
